@@ -25,7 +25,7 @@ from vf.core import exc_key
 LEVEL = "exploration"
 RULE = ("history = N in 1..8 requests (GET/POST/PUT/PATCH/DELETE/OPTIONS, none|binary|JSON payload) x per-request "
         "response shape (8 shapes, mixed) x transport (memory doubles with partial sends + trickled delivery | real "
-        "loopback) x random interleaving of 12 service actions (2000 steps max) then <=400 fair rounds; requests queued "
+        "loopback) x random interleaving of 12 service actions (1500 steps max) then <=400 fair rounds; requests queued "
         "up front or appended while running; distinct = distinct (request list, shape list, schedule seed); non-trivial "
         "= N >= 2 with at least one response without a length after the first response or mixed shapes")
 META = {"engine": "D+E io/http", "technique": "history checking with unique ids, independent wire re-parse, schedule fuzzing",
@@ -127,7 +127,7 @@ def one_case(ctx, rng, idx, mem, deadline):
             collect()
 
         steps = 0
-        maxsteps = rng.choice([50, 200, 800, 2000])
+        maxsteps = rng.choice([50, 200, 600, 1500])
         while steps < maxsteps and len(arrived) < n and not escaped:
             steps += 1
             if steps % 64 == 0 and time.time() > deadline:
@@ -144,8 +144,21 @@ def one_case(ctx, rng, idx, mem, deadline):
                 time.sleep(0.0002)
         for r in tosend:
             send_request(patron, r)
+
+        def doomed():
+            """A response without any frame is already on the wire: the verdict is decided, stop spending rounds."""
+            if not mem:
+                return False
+            try:
+                ms, _ = hg.ref_parse_stream(bytes(pair.net.conns[0][3].total), "response", [r["method"] for r in reqs])
+            except hg.WireError:
+                return True
+            return any(m.get("undelimited") for m in ms)
+
         fair = 0
         while fair < 400 and len(arrived) < n and not escaped:
+            if fair % 50 == 0 and doomed():
+                break
             fair += 1
             if fair % 32 == 0 and time.time() > deadline:
                 ctx.inconclusive_case("wall-clock watchdog")
@@ -286,15 +299,20 @@ def one_case(ctx, rng, idx, mem, deadline):
 def worker(ctx, job):
     deadline = time.time() + job["budget"]
     rng = ctx.rng
+    errs = []
     for i in range(job["n"]):
         if time.time() > deadline:
             ctx.inconclusive_case("wall-clock watchdog")
             break
-        one_case(ctx, rng, i, mem=(i % 5 != 0), deadline=deadline)
+        try:
+            one_case(ctx, rng, i, mem=(i % 5 != 0), deadline=deadline)
+        except (OSError, RuntimeError) as ex:      # the harness's own sockets (bind / connect), never a verdict
+            errs.append("%s: %s" % (type(ex).__name__, ex))
+    hg.tolerate_socket_errors(ctx, errs, job["n"])
 
 
 def run(ctx):
-    n = ctx.pick(60, 1200)
+    n = ctx.pick(50, 1200)
     jobs = [{"n": n, "budget": ctx.pick(25, 330)} for _ in range(16)]
     ctx.shard(jobs, timeout=ctx.pick(60, 400))
     total = 16 * n
